@@ -595,8 +595,13 @@ def saveToStream(stream, bluep, full=False, tryMap=False):
             aMap = asciimaps.asciiMapFromGeomAndDomain(
                 gridDesign.geom, symmetry.domain
             )()
+            iOff = jOff = 0
+            if str(gridDesign.geom) == geometry.CARTESIAN and symmetry.domain == geometry.DomainType.FULL_CORE:
+                # undo the centring that _readGridContentsLattice applies to full Cartesian maps
+                nx, ny = _getGridSize(gridDesign.gridContents.keys())
+                iOff, jOff = int(-nx / 2), int(-ny / 2)
             aMap.asciiLabelByIndices = {
-                (key[0], key[1]): val for key, val in gridDesign.gridContents.items()
+                (key[0] - iOff, key[1] - jOff): val for key, val in gridDesign.gridContents.items()
             }
             try:
                 aMap.gridContentsToAscii()
